@@ -5,6 +5,7 @@ package main
 import (
 	"fmt"
 	"io"
+	"os"
 	"sort"
 	"strings"
 
@@ -51,8 +52,15 @@ func (m *Msg) canonical() bool {
 			if w := tt.WidthOf(i); w >= 0 && len(v) > w {
 				return false
 			}
-			// the zero-padded numeric of {1120} is canonical only at full width (for {2000} validity implies it)
+			// the zero-padded numeric of {1120} is canonical only at full width
 			if k == "OutputMessageAccountabilityData" && tt.Elems[i].Path == "OutputSequenceNumber" && len(v) != 6 {
+				return false
+			}
+			// likewise the {2000} amount (validation accepts 1..12 digits) and the {8200} length field
+			if k == "Amount" && tt.Elems[i].Path == "Amount" && len(v) != 12 {
+				return false
+			}
+			if k == "UnstructuredAddenda" && tt.Elems[i].Path == "AddendaLength" && len(v) != 4 {
 				return false
 			}
 		}
@@ -148,6 +156,99 @@ func init() {
 				}
 			}
 		}
+		// C07: an over-width value is cut to its leading width characters, in both layouts
+		{
+			alphabet := "ABCDEFGHJKLMNPQRSTUVWXYZ23456789"
+			for si, sn := range sortedSampleNames(samples) {
+				if !thorough && si%3 != 0 {
+					continue
+				}
+				base := samples[sn]
+				for _, k := range sortedKeys(base.Tags) {
+					tt := tagByName[k]
+					for i := range tt.Elems {
+						w := widths(tt)[i]
+						if w < 4 || (!thorough && (i+len(k))%2 != 0) {
+							continue
+						}
+						var vb strings.Builder
+						for j := 0; j < w+6; j++ {
+							vb.WriteByte(alphabet[(j*7+i*3+len(k))%len(alphabet)])
+						}
+						v := vb.String()
+						m := base.Clone()
+						m.Tags[k] = tt.New(tt.Marker(base.Tags[k]), setAt(tt.Vals(base.Tags[k]), i, v))
+						if m.Validate() != "ok" {
+							continue
+						}
+						for _, l := range layouts6 {
+							res, _ := m.Write(l.v, l.nl)
+							if !strings.HasPrefix(res, "ok:") {
+								continue
+							}
+							text := string(unhexs(res[3:]))
+							r := "same"
+							if strings.Contains(text, v[:w+1]) {
+								r = fmt.Sprintf("differ:over-width value of %s.%s is not cut to its %d characters (variable=%v)", k, tt.Elems[i].Path, w, l.v)
+							} else if !strings.Contains(text, v[:w]) && !strings.Contains(text, v[len(v)-w:]) {
+								r = fmt.Sprintf("differ:over-width value of %s.%s does not appear with its leading %d characters (variable=%v)", k, tt.Elems[i].Path, w, l.v)
+							}
+							o.Case("prop:text-shape", r, sn, k, fmt.Sprint(i), fmt.Sprint(l.v), l.nl, "over-width")
+						}
+					}
+				}
+			}
+		}
+		// C12: every route applies explicit options the same way - they replace presets and earlier options
+		{
+			texts := sampleTexts()
+			for si, tn := range sortedTextNames(texts) {
+				if !thorough && si%4 != 0 {
+					continue
+				}
+				segs := splitSegments(texts[tn])
+				for _, dropMarker := range []string{"", "{1500}", "{1520}"} {
+					var kept []string
+					for _, sg := range segs {
+						if dropMarker == "" || !strings.HasPrefix(sg, dropMarker) {
+							kept = append(kept, sg)
+						}
+					}
+					text := strings.Join(kept, "\n")
+					for _, op := range optionSets() {
+						if op == nil {
+							continue
+						}
+						plain := doRead(text, 0, nil, io.EOF, "nil", op)
+						for _, preset := range []string{"in", "out"} {
+							withPreset := doRead(text, 0, nil, io.EOF, preset, op)
+							o.Case("prop:options-routes-agree", sameOr(verdictOnly(plain), verdictOnly(withPreset)), text, preset, optsArg(op), "reader")
+						}
+						// SetValidation twice: the later options are the ones in force
+						if m, _ := readText(texts[tn], nil); m != nil {
+							w := m.ToWire()
+							if dropMarker == "{1500}" {
+								w.SenderSupplied = nil
+							}
+							if dropMarker == "{1520}" {
+								w.InputMessageAccountabilityData = nil
+							}
+							for _, first := range optionSets() {
+								f1 := &wire.File{FEDWireMessage: *w}
+								f1.FEDWireMessage.ValidateOptions = nil
+								f1.SetValidation(first)
+								f1.SetValidation(op)
+								f2 := &wire.File{FEDWireMessage: *w}
+								f2.FEDWireMessage.ValidateOptions = nil
+								f2.SetValidation(op)
+								a, b := fmt.Sprint(f1.Validate() == nil), fmt.Sprint(f2.Validate() == nil)
+								o.Case("prop:options-routes-agree", sameOr(b, a), tn, dropMarker, optsArg(first), optsArg(op), "set-validation-twice")
+							}
+						}
+					}
+				}
+			}
+		}
 		// values with consecutive blanks inside, in every element wide enough, and near-maximal {8200} addenda
 		for _, sn := range sortedSampleNames(samples) {
 			base := samples[sn]
@@ -174,9 +275,57 @@ func init() {
 				}
 			}
 		}
+		// sparse tails: of the last elements of a tag only one is kept (optional trailing blocks, early returns);
+		// every tag type, placed in the first sample message that accepts it
+		sparseNames := sortedSampleNames(samples)
+		for _, tt := range tagTypes {
+			bl := bases[tt.Name]
+			if len(bl) == 0 {
+				continue
+			}
+			placed := false
+			seenSparse := map[string]bool{}
+			for _, b := range bl {
+				vals := b.vals
+				if len(vals) < 4 {
+					continue
+				}
+				for tail := 2; tail <= 8 && tail < len(vals); tail++ {
+					from := len(vals) - tail
+					for keep := from; keep < len(vals); keep++ {
+						if vals[keep] == "" {
+							continue
+						}
+						nv := append([]string{}, vals...)
+						for j := from; j < len(vals); j++ {
+							if j != keep {
+								nv[j] = ""
+							}
+						}
+						if k := strings.Join(nv, "\x00"); seenSparse[k] {
+							continue
+						} else {
+							seenSparse[k] = true
+						}
+						for _, sn := range sparseNames {
+							m := samples[sn].Clone()
+							m.Tags[tt.Name] = tt.New(b.marker, nv)
+							if m.Validate() == "ok" {
+								msgs = append(msgs, m)
+								placed = true
+								break
+							}
+						}
+					}
+				}
+			}
+			if !placed && os.Getenv("VERIF_DEBUG") != "" {
+				fmt.Fprintln(os.Stderr, "sparse tails: no valid message for", tt.Name)
+			}
+		}
 		// C10 / C04: framing and non-FAIM characters in every element of every tag, inside a whole message:
 		// whatever validation still accepts must be written and read back
-		hostile := []string{"*", "{", "}", "\n", "A*B", "A{1510}B", "A\nB", "A\r\nB", "\xc3\xa9", "A\tB"}
+		hostile := []string{" ", "  ", "*", "{", "}", "\n", "A*B", "A{1510}B", "A\nB", "A\r\nB", "\xc3\xa9", "A\tB"}
 		snames := sortedSampleNames(samples)
 		for _, tt := range tagTypes {
 			bl := bases[tt.Name]
@@ -186,8 +335,12 @@ func init() {
 			b := bl[len(bl)-1]
 			for i := range tt.Elems {
 				w := widths(tt)[i]
-				for _, h := range hostile {
-					if w >= 0 && len(h) > w {
+				derived := []string{" " + b.vals[i], b.vals[i] + " ", "\t" + b.vals[i], "\u00a0" + b.vals[i], "  " + b.vals[i] + "  ", strings.ToLower(b.vals[i])}
+				for hi, h := range append(append([]string{}, hostile...), derived...) {
+					if hi < len(hostile) && w >= 0 && len(h) > w {
+						continue
+					}
+					if hi >= len(hostile) && b.vals[i] == "" {
 						continue
 					}
 					for _, sn := range snames {
@@ -605,6 +758,9 @@ func framingIn(m *Msg) string {
 	for _, k := range sortedKeys(m.Tags) {
 		tt := tagByName[k]
 		for i, v := range tt.Vals(m.Tags[k]) {
+			if v != "" && strings.TrimSpace(v) == "" && !(k == "SenderSupplied" && tt.Elems[i].Path == "MessageDuplicationCode") {
+				return "blank-only value " + k + "." + tt.Elems[i].Path
+			}
 			for j := 0; j < len(v); j++ {
 				if c := v[j]; c == '*' || c == '{' || c == '}' || c < 0x20 || c > 0x7e {
 					return k + "." + tt.Elems[i].Path
@@ -619,5 +775,25 @@ func annotate(res, note string) string {
 	if note == "" || !strings.HasPrefix(res, "differ") {
 		return res
 	}
+	if strings.HasPrefix(note, "blank-only value ") {
+		return res + " [" + note + "]"
+	}
 	return res + " [non-FAIM character in " + note + "]"
+}
+
+func sortedTextNames(m map[string]string) []string {
+	var ks []string
+	for k := range m {
+		ks = append(ks, k)
+	}
+	sort.Strings(ks)
+	return ks
+}
+
+// verdictOnly reduces a read result to accepted / rejected
+func verdictOnly(res string) string {
+	if strings.HasPrefix(res, "ok|") {
+		return "accepted"
+	}
+	return "rejected"
 }
